@@ -143,6 +143,12 @@ pub const CARRIERS: &[&str] = &[
     // after an earlier statement whose literal may need re-indenting
     "begin\n  S := {};\n  X :=\n{$IFDEF A}\n      {}\n{$ELSE}\n{$ENDIF}\n      + B;\nend;\n",
     "begin\n  S := {};\n  X := Foo(\n{$IFDEF A}\n    {},\n{$ELSE}\n    Other,\n{$ENDIF}\n    Tail) + C;\n  Y := {};\nend;\n",
+    // three branches, the middle one empty
+    "begin\n  X :=\n{$IFDEF A}\n      {}\n{$ELSEIF B}\n{$ELSE}\n      {}\n{$ENDIF}\n      + Tail;\nend;\n",
+    // a receiver literal written far to the right (the call after it only fits once the literal has been
+    // re-indented) whose argument is an anonymous method holding another literal
+    "begin\n  Query.Text := \'\'\'\n                                                                      select id\n                                                                      \'\'\'.ForEach(procedure(const Line: string) begin if Line <> \'\' then Log.Add({}); end);\nend;\n",
+    "begin\n  if A then\n    X := \'\'\'\n                                                            a\n                                                            \'\'\'.Replace(Aaaaa, procedure begin Y := {}; Z := 1; end);\nend;\n",
 ];
 
 /// expand a carrier with literals; returns (program text, byte offset of each literal)
